@@ -575,12 +575,31 @@ def r5(repo, res):
     res.ob("C08.R5", f, loop, ok,
            expected="equivalent keys use the read parser's convention: insertion keyed at the base after it, deletion at its first deleted base",
            found=str(dict(eqs)), key="equivalent-keys")
-    # the parser looks up exactly these keys
+    # the read parser counts a read towards the catalogued indel its own indel is equivalent to (the parser folded whole)
+    from checks._reads import START, fold_parse_read, sample_read
+
     pr = repo.func("sam::Sample._parse_read")
-    looks = [n for n in ast.walk(pr) if isinstance(n, ast.Compare) and isinstance(n.ops[0], ast.In)
-             and ast.unparse(n.comparators[0]) == "self._indel_sites_eqs"]
-    res.ob("C08.R5", pr, looks[0] if looks else pr, len(looks) >= 2, expected="insertion and deletion branches of the read parser consult the equivalents table",
-           found=f"{len(looks)} lookups", key="parser-lookups")
+    res.analysed(pr)
+    rows = {}
+    DB, FAR = (START + 1, "insCC"), (START + 60, "insG")   # the catalogued placement of the read's indel; an indel outside the read
+    try:
+        for label, k, key in (("insertion", 1, (START + 2, "insCCC")), ("deletion", 2, (START + 2, "delAAA")), ("plain match", 0, (START + 2, "insCCC"))):
+            cigar, seq, qual = sample_read(k)
+            sites = {DB: [0, 0], FAR: [3, 4]}
+            kind, val, norm, muts, me, ev = fold_parse_read(repo, cigar, seq, qual, eqs={key: DB, (START + 61, "insG"): FAR}, indel_sites=sites)
+            rows[label] = (kind, {k_: list(v_) for k_, v_ in me._indel_sites.items()})
+            kind2, _, _, _, me2, _ = fold_parse_read(repo, cigar, seq, qual, eqs={}, indel_sites={DB: [0, 0]})
+            rows[label + ", empty table"] = (kind2, {k_: list(v_) for k_, v_ in me2._indel_sites.items()})
+    except (Unfoldable, Raised) as e:
+        res.err("C08.R5", f"_parse_read outside folding language: {e}")
+        return
+    ok = all(rows[l][0] != "raise" for l in rows) \
+        and rows["insertion"][1][DB][1] == 1 and rows["deletion"][1][DB][1] == 1 and rows["plain match"][1][DB][1] == 0 \
+        and all(rows[l][1][FAR] == [3, 4] for l in ("insertion", "deletion", "plain match")) \
+        and all(rows[l + ", empty table"][1] == {DB: [0, 0]} for l in ("insertion", "deletion", "plain match"))
+    res.ob("C08.R5", pr, pr, ok, expected="a read whose insertion / deletion is an equivalent placement of a catalogued indel adds one supporting read to exactly that indel; "
+                                        "a read without it adds none; an indel the read does not span is untouched; without the equivalents table nothing is counted",
+           found="ok" if ok else str(rows), clause="an insertion is located between the same two reference bases wherever it is consumed", key="parser-lookups")
 
 
 def apply_variant_vcf(seq, p, ref, alt):
